@@ -161,12 +161,24 @@ def _source_forms():
         forms["opDeepcopyForm"] = flat(_find_def(t_op, ["Op", "__deepcopy__"]))
         t_dom = ast.parse((REPO / "funsor" / "domains.py").read_text())
         forms["domainReduceForm"] = flat(_find_def(t_dom, ["_pickle_array"]))
+        gi = _find_def(t_dom, ["ArrayType", "__getitem__"])
+        parts = []
+        if gi:
+            for n in gi.body:
+                src = " ".join(ast.unparse(n).split())
+                if isinstance(n, ast.If) and "result" in ast.unparse(n.test):
+                    parts.append("if " + " ".join(ast.unparse(n.test).split()))
+                    parts += [" ".join(ast.unparse(m).split()) for m in n.body if "_type_cache" in ast.unparse(m)]
+                elif not isinstance(n, ast.If) and "_type_cache" in src:
+                    parts.append(src)
+        forms["domainLookupForm"] = " ;; ".join(parts) if parts else "MISSING"
+        forms["productLookupForm"] = flat(_find_def(t_dom, ["ProductDomain", "__getitem__"]))
         forms["domainCopyregForm"] = " ;; ".join(sorted(
             " ".join(ast.unparse(n).split()) for n in t_dom.body
             if isinstance(n, ast.Expr) and "copyreg.pickle" in ast.unparse(n)))
     except (OSError, SyntaxError):
         for k in ("opHashForm", "opCallForm", "reshapeHashForm", "getsliceHashForm", "opReduceForm",
-                  "opDeepcopyForm", "domainReduceForm", "domainCopyregForm"):
+                  "opDeepcopyForm", "domainReduceForm", "domainCopyregForm", "domainLookupForm", "productLookupForm"):
             forms.setdefault(k, "MISSING")
     return forms
 
@@ -621,6 +633,17 @@ RECIPES = [
     Recipe("pr7", T + "Variable", "('p', H['r7'])", needs=("r7",)),
     Recipe("qr7", T + "Variable", "('q', H['r7'])", needs=("r7",)),
     Recipe("i7", T + "Variable", "('i7', H['bs7'])", needs=("bs7",)),
+    # zero-size event shapes (falsy under a `len`-like truth test): must intern like any other domain
+    Recipe("z20", D, "((2, 0),)", expr="Bint[2, 0]", mcls="Bint", cyc=True, dyn=True, pk=("reflect",), blob=True),
+    Recipe("z20a", D, "(2, (0,))", expr="Array[2, (0,)]", mcls="Array", cyc=True, dyn=True, pk=("reflect",)),
+    Recipe("z302", D, "((3, 0, 2),)", expr="Bint[3, 0, 2]", mcls="Bint", cyc=True, dyn=True, pk=("reflect",), blob=True),
+    Recipe("z320", D, "((3, 2, 0),)", expr="Bint[3, 2, 0]", mcls="Bint", cyc=True, dyn=True, pk=("reflect",)),
+    Recipe("rz0", D, "(0,)", expr="Reals[0]", mcls="Reals", cyc=True, dyn=True, pk=("reflect",), blob=True),
+    Recipe("rz0a", D, "('real', (0,))", expr="Array['real', (0,)]", mcls="Array", cyc=True, dyn=True),
+    Recipe("rz20", D, "(2, 0)", expr="Reals[2, 0]", mcls="Reals", cyc=True, dyn=True, pk=("reflect",)),
+    Recipe("vz20", T + "Variable", "('z', H['z20'])", needs=("z20",), pk=("reflect", "lazy", "eager")),
+    Recipe("vz302", T + "Variable", "('z', H['z302'])", needs=("z302",), pk=("reflect",)),
+    Recipe("vrz0", T + "Variable", "('z', H['rz0'])", needs=("rz0",), pk=("eager",)),
     Recipe("r77", D, "(7, 7)", expr="Reals[7, 7]", mcls="Reals", cyc=True, dyn=True, pk=("reflect",), blob=True),
     Recipe("m77", T + "Variable", "('m', H['r77'])", needs=("r77",)),
     Recipe("n77", T + "Variable", "('n', H['r77'])", needs=("r77",)),
@@ -733,6 +756,11 @@ USES = {
     "tensor_add": (("r7",), "Tensor(np.ones(7)) + Tensor(np.ones(7))", "AddOp"),
     "tensor_var": (("pr7",), "Tensor(np.ones(7)) * H['pr7']", "MulOp"),
     "stack_term": (("pr7", "qr7"), "Stack('k', (H['pr7'], H['qr7']))", None),
+    # empty tensors / arithmetic whose output domain is a held zero-size domain
+    "empty_int_tensor": (("z20",), "Tensor(np.zeros((3, 0)), (('j', Bint[3]),), 2)", None),
+    "empty_real_tensor": (("rz0",), "Tensor(np.zeros((0,)))", None),
+    "empty_var_neg": (("vrz0",), "-H['vrz0']", "NegOp"),
+    "empty_bint_lt": (("vz20",), "H['vz20'] < H['vz20']", "LtOp"),
     # Finitary ops
     "einsum": (("m77", "n77"), "Einsum('ab,bc->ac', H['m77'], H['n77'])", "EinsumOp"),
     "einsum_op": (("ein", "m77", "n77"), "H['ein']((H['m77'], H['n77']))", "EinsumOp"),
@@ -989,12 +1017,31 @@ def _collect_pins(w):
     return [(PIN_SLOT0 + k, t, m, a, o) for k, (t, m, a, o) in enumerate(pins)]
 
 
+def _truthiness(w):
+    """{table kind: {truthy|falsy|raises: count}} over everything currently stored in the observed intern tables.
+    A table whose values may be falsy (or whose truth test raises) must look entries up with `is None` / `in` /
+    KeyError — which is what the source-form obligations pin down."""
+    out = {}
+    for name, d in w.tables.items():
+        kind = "funsor" if name.startswith(("funsor.terms.", "funsor.tensor.")) else \
+            "domain" if name.startswith("funsor.domains.") else "op"
+        c = out.setdefault(kind, {"truthy": 0, "falsy": 0, "raises": 0})
+        for v in list(d.values()):
+            try:
+                c["truthy" if bool(v) else "falsy"] += 1
+            except Exception:
+                c["raises"] += 1
+        v = None
+    return out
+
+
 def warm_up_and_pin(w, rng):
     """Run every recipe once under every allowed interpretation so that every domain / op the recipes can
     touch exists, then hold the non-dynamic *domains and ops* forever (they are the 'pinned prelude' of every
     model history) and let everything else go.  (Helpers keep loop variables out of this frame: a stray local
     holding the last domain would keep it alive across the collection below.)"""
     _warm_up(w, rng)
+    w.truthiness = _truthiness(w)
     w.pinned = _collect_pins(w)
     w.pinned_raw = {id(o) for (_, _, _, _, o) in w.pinned}
     w.pinned_per_table = {}
@@ -1161,6 +1208,32 @@ def passed_through_histories(rng, first=()):
     # uses named in `first` (derived from a new memo) lead
     out.sort(key=lambda uh: 0 if uh[0] in first else 1)
     return [h for _, h in out]
+
+
+def zero_shape_histories(rng):
+    """each zero-size domain requested repeatedly while alive (directly, through its alias, through pickle, as a
+    Variable's domain, as an empty Tensor's output), then dropped and collected"""
+    out = []
+    for dom, alias, var, use in (("z20", "z20a", "vz20", "empty_int_tensor"), ("z302", None, "vz302", None),
+                                 ("z320", None, None, None), ("rz0", "rz0a", "vrz0", "empty_real_tensor"),
+                                 ("rz20", None, None, None)):
+        h = [("mk", dom, None), ("mk", dom, None), ("pk", dom, None)]
+        if alias:
+            h += [("mk", alias, None), ("mk", dom, None)]
+        if var:
+            h += [("mk", var, None), ("pk", var, None), ("mk", var, None)]
+        if use:
+            h += [("use", use, None), ("mk", dom, None)]
+        h += [("dumps", dom), ("drop", dom)] if RBY[dom].blob else [("drop", dom)]
+        if alias:
+            h.append(("drop", alias))
+        if var:
+            h.append(("drop", var))
+        h += [("dropP",), ("gc",)]
+        if RBY[dom].blob:
+            h += [("loads", dom, None), ("mk", dom, None)]
+        out.append(h)
+    return out
 
 
 def fill_interps(hist, rng):
@@ -1588,7 +1661,7 @@ def oracle_violation(w, expect_same):
     return None
 
 
-ALIASES = [("nhalf", "nhalf_g"), ("n1", "n1_g32"), ("n1b3", "n1b3_g"), ("n1", "n1f"), ("n1", "n1t"), ("n1", "n1n"), ("nz", "nnz"), ("n1b3", "n1b3f"), ("t0", "t0t"),
+ALIASES = [("z20", "z20a"), ("rz0", "rz0a"), ("nhalf", "nhalf_g"), ("n1", "n1_g32"), ("n1b3", "n1b3_g"), ("n1", "n1f"), ("n1", "n1t"), ("n1", "n1n"), ("nz", "nnz"), ("n1b3", "n1b3f"), ("t0", "t0t"),
            ("t0n", "t0nn"), ("sl", "sl2"), ("sl", "sl3"), ("d5", "d5a"), ("r5", "r5a"),
            ("g1", "g1k"), ("tv_VT", "tv_VTt"), ("tv_VT", "tv_VTn"), ("tv_VS", "tv_VSt"),
            ("tv_VCi", "tv_VCt"), ("tv_VR", "tv_VRt"), ("tv_VZ", "tv_VZt"), ("tv_VO", "tv_VOt"), ("bs23", "bs23a"), ("gs_rev", "gs_revk"), ("gs_s3", "gs_s3n"), ("gs_i2", "gs_i2t"), ("sum_m1", "sum_m1k"), ("sum_m2", "sum_m2k"), ("sum_1", "sum_1f"), ("sum_1", "sum_1t"),
@@ -1609,7 +1682,7 @@ DISTINCT = [("n1", "n1b3"), ("x", "xb"), ("t0", "t0b"), ("t0", "t0n"), ("sl", "s
             ("ugs_i2", "ugs_s23"), ("gs_c1", "gs_c01"), ("gs_el_rev", "gs_el_rev0"),
             ("ugs_el_rev", "ugs_el_rev0"), ("gs_nn", "gs_n0"), ("gs_full", "gs_el")]
 ALIASES = ALIASES + [(r.base, r.name) for r in KW_RECIPES]
-DISTINCT = DISTINCT + [("b", "bltr"), ("bsub", "bsubr")] + \
+DISTINCT = DISTINCT + [("z20", "z302"), ("z302", "z320"), ("rz0", "rz20"), ("z20", "rz0"), ("vz20", "vz302"), ("b", "bltr"), ("bsub", "bsubr")] + \
     [(o, r.name) for r in KW_RECIPES for (bb, o) in (("b", "bltr"), ("bltr", "b"), ("bsub", "bsubr"), ("bsubr", "bsub"))
      if r.base == bb]
 VALUE_REF = {"usum": np.sum, "uamax": np.amax, "uprod": np.prod, "uargmax": np.argmax}
@@ -2059,6 +2132,8 @@ def _correspond(ctx):
         for _ in range(2 if ctx.tier == "quick" else 20):
             cf += [fill_interps(h, ctx.rng) for h in callform_histories(ctx.rng)]
         all_runs += run_batch(ctx, w, cf, "call-forms")
+        zs = [fill_interps(h, ctx.rng) for _ in range(3) for h in zero_shape_histories(ctx.rng)]
+        all_runs += run_batch(ctx, w, zs, "zero-shape-domains")
         pt = [fill_interps(h, ctx.rng) for h in passed_through_histories(ctx.rng)]
         all_runs += run_batch(ctx, w, pt, "passed-through")
         nrand = 300 if ctx.tier == "quick" else 6000
@@ -2069,6 +2144,10 @@ def _correspond(ctx):
             all_runs += run_batch(ctx, w, rh[i:i + 100], "random")
             if len([f for f in ctx.failures if f.witness is not None]) >= 5:
                 break
+        ctx.extra["truthiness_of_interned_objects"] = getattr(w, "truthiness", None)
+        for kind, c in (getattr(w, "truthiness", None) or {}).items():
+            for k, n in c.items():
+                ctx.count(f"truthiness:{kind}:{k}", n)
         ctx.count("fidelity:Tensor.data-is-the-array-passed", w.data_is_arg[True])
         ctx.count("fidelity:Tensor.data-is-another-array", w.data_is_arg[False])
         if not [f for f in ctx.failures if f.witness is not None]:
@@ -2105,7 +2184,8 @@ def search(ctx, broken):
         if new_memos:
             ctx.extra["new_memos"] = [list(m) for m in new_memos]
             ctx.extra["uses_through_new_memos"] = first
-        hs = [fill_interps(h, ctx.rng) for h in passed_through_histories(ctx.rng, first)]
+        hs = [fill_interps(h, ctx.rng) for h in zero_shape_histories(ctx.rng)]
+        hs += [fill_interps(h, ctx.rng) for h in passed_through_histories(ctx.rng, first)]
         hs += [fill_interps(h, ctx.rng) for _ in range(3) for h in callform_histories(ctx.rng)]
         hs += [fill_interps(h, ctx.rng) for h in enumerate_histories(3, core)]
         hs += [fill_interps(random_history(ctx.rng, ctx.rng.randint(4, 30), RECIPES), ctx.rng)
